@@ -58,6 +58,9 @@ pub struct CCase {
   pub aborting: Vec<i64>,
   #[serde(default)]
   pub posting: Vec<i64>,
+  /// timer period / delay of the case in ms (time-based cases)
+  #[serde(default)]
+  pub period: i64,
 }
 
 pub fn ev(v: serde_json::Value) {
@@ -91,6 +94,7 @@ struct Shared {
   root: O,
   handles: Mutex<BTreeMap<i64, Subscription<'static>>>,
   sched: Sched,
+  fut: Mutex<Option<std::pin::Pin<Box<another_rxrust::operators::to_vec::ToVec<'static, i64>>>>>,
   aborting: Vec<i64>,
   posting: Vec<i64>,
 }
@@ -169,6 +173,52 @@ fn do_step(sh: &Arc<Shared>, st: &Step) {
       });
       ev(json!({"ev": "postret", "task": task}));
     }
+    // C18: a minimal executor built on the facade's primitives drives the future returned by to_vec()
+    "tovec_start" => {
+      // ToVec<'a, _> only carries 'a in a PhantomData tied to `&self`; the observable itself is 'static
+      let f: another_rxrust::operators::to_vec::ToVec<'static, i64> = unsafe { std::mem::transmute(sh.root.to_vec()) };
+      *sh.fut.lock().unwrap() = Some(Box::pin(f));
+      ev(json!({"ev": "subret", "u": 1}));
+    }
+    "tovec_wait" => {
+      use std::future::Future;
+      use std::task::{Context, Poll, Wake, Waker};
+      struct Flag {
+        m: arx_vstd::sync::Mutex<bool>,
+        c: arx_vstd::sync::Condvar,
+      }
+      impl Wake for Flag {
+        fn wake(self: Arc<Self>) {
+          ev(json!({"ev": "wake"}));
+          *self.m.lock().unwrap() = true;
+          self.c.notify_one();
+        }
+      }
+      let mut fut = sh.fut.lock().unwrap().take().expect("tovec_start first");
+      let flag = Arc::new(Flag { m: arx_vstd::sync::Mutex::new(false), c: arx_vstd::sync::Condvar::new() });
+      let waker = Waker::from(flag.clone());
+      let mut cx = Context::from_waker(&waker);
+      loop {
+        match fut.as_mut().poll(&mut cx) {
+          Poll::Ready(Ok(v)) => {
+            ev(json!({"ev": "poll", "k": "ready", "v": enc_list(&v.read().unwrap())}));
+            break;
+          }
+          Poll::Ready(Err(e)) => {
+            ev(json!({"ev": "poll", "k": "err", "v": payload(&e)}));
+            break;
+          }
+          Poll::Pending => {
+            ev(json!({"ev": "poll", "k": "pending", "v": 0}));
+            let mut g = flag.m.lock().unwrap();
+            while !*g {
+              g = flag.c.wait(g).unwrap();
+            }
+            *g = false;
+          }
+        }
+      }
+    }
     "abort" => {
       ev(json!({"ev": "abortcall", "task": 0}));
       sh.sched.abort();
@@ -191,7 +241,7 @@ pub fn run_ccase(case: &CCase, strategy: Strategy, log_locks: bool, budget: u64)
       "default_queue" => Sched::Default(schedulers::DefaultScheduler::new()),
       _ => Sched::None,
     };
-    let sh = Arc::new(Shared { w: w.clone(), root, handles: Mutex::new(BTreeMap::new()), sched, aborting: case.aborting.clone(), posting: case.posting.clone() });
+    let sh = Arc::new(Shared { w: w.clone(), root, handles: Mutex::new(BTreeMap::new()), sched, fut: Mutex::new(None), aborting: case.aborting.clone(), posting: case.posting.clone() });
     for st in &case.pre {
       do_step(&sh, st);
     }
@@ -199,6 +249,7 @@ pub fn run_ccase(case: &CCase, strategy: Strategy, log_locks: bool, budget: u64)
     for th in case.threads.iter() {
       let (sh2, th2) = (sh.clone(), th.clone());
       hs.push(arx_vstd::thread::spawn(move || {
+        ev(json!({"ev": "hthread"}));       // a thread of the harness, not one the library started
         for st in &th2 {
           do_step(&sh2, st);
         }
@@ -218,7 +269,7 @@ pub fn run_ccase(case: &CCase, strategy: Strategy, log_locks: bool, budget: u64)
 pub fn trace_of(id: u64, case: &CCase, r: &RunResult) -> (Vec<String>, String) {
   let mut lines = vec![];
   let mut key = String::new();
-  lines.push(json!({"ev": "reset", "id": id, "name": case.name, "root": case.root, "sbj": case.sbj, "tags": case.tags, "nthreads": case.threads.len(), "kind": case.kind}).to_string());
+  lines.push(json!({"ev": "reset", "id": id, "name": case.name, "root": case.root, "sbj": case.sbj, "tags": case.tags, "nthreads": case.threads.len(), "kind": case.kind, "period": case.period}).to_string());
   for e in r.events.iter() {
     if !e.what.starts_with('{') {
       continue; // spawn / join notes of the runtime
